@@ -41,6 +41,11 @@ thread_local! {
 /// Must be called by a registered parent thread holding the baton.
 pub fn spawn<F: FnOnce() + Send + 'static>(f: F) -> (u8, std::thread::JoinHandle<()>) {
     let u = sim().add_thread();
+    // a new thread starts with the signal mask of the thread that created it
+    if let Some(me) = cur_thread() {
+        let m = sim().k.par_mask[me as usize];
+        sim().k.par_mask[u as usize] = m;
+    }
     let baton = sim().threads[u as usize].baton.clone();
     let h = std::thread::Builder::new()
         .stack_size(1 << 20)
